@@ -246,6 +246,18 @@ fn main() {
         t
     });
 
+    // S6: structured operands x scales x written-out trailing zeros
+    let st = structured_ints(tier.pick(80, 300), tier.pick(24, 60), run.seed());
+    run.bound("S6_structured_integers", st.len());
+    run.par("S6 structured operands", st.len(), |i| {
+        let mut t = Tally::default();
+        let l = ndigits(&st[i]) as i128;
+        for x in structured_decimals(&st[i..=i], &[0, 1, 2, -1, -3, l - 1, l, l + 1, 19, 20, 38, 39], &[0, 1, 12, 20]) {
+            check_all(&run, &x, &mut t);
+        }
+        t
+    });
+
     // S4: zeros with scales; constructors
     run.seq("S4 zeros and constructors", || {
         let mut t = Tally::default();
